@@ -327,11 +327,17 @@ impl Plane {
   ///
   ///
   ///
-  pub fn pivot(&mut self) {
+  pub fn pivot(&mut self) -> Result<()> {
+    if self.content.is_empty() {
+      return Err(plane_is_empty());
+    }
     let mut pivot_content: Vec<Vec<Cell>> = vec![];
     while !self.content[0].is_empty() {
       pivot_content.push(vec![]);
       for row in 0..self.content.len() {
+        if self.content[row].is_empty() {
+          return Err(plane_column_is_out_of_range());
+        }
         let cell = self.content[row].remove(0);
         let new_cell = match cell {
           Cell::Region(n, r, t) => Cell::Region(n, r, t),
@@ -347,6 +353,7 @@ impl Plane {
       }
     }
     self.content = pivot_content;
+    Ok(())
   }
   // FIXME this finalization is needed because the initialization must be fixed and generating plane in canvas must be fixed
   // TODO check if the plane is rectangular.
@@ -444,14 +451,14 @@ impl Plane {
       return Err(plane_is_empty());
     }
     // check if the hit policy is placed in the top-left corner of the plane
-    if let Cell::Region(_, _, text) = &self.content.first().unwrap().first().unwrap() {
+    if let Some(Cell::Region(_, _, text)) = self.content.first().and_then(|row| row.first()) {
       if let Ok(hit_policy) = HitPolicy::try_from(text.as_str()) {
         // top-left corner
         return Ok(HitPolicyPlacement::TopLeft(hit_policy));
       }
     }
     // check if the hit policy is placed in the bottom-left corner of the plane
-    if let Cell::Region(_, _, text) = &self.content.last().unwrap().first().unwrap() {
+    if let Some(Cell::Region(_, _, text)) = self.content.last().and_then(|row| row.first()) {
       if let Ok(hit_policy) = HitPolicy::try_from(text.as_str()) {
         return Ok(HitPolicyPlacement::BottomLeft(hit_policy));
       }
@@ -469,13 +476,13 @@ impl Plane {
   /// Checks if rule numbers are placed on the left side below horizontal output double line.
   fn recognize_horizontal_rule_numbers(&self) -> Result<RuleNumbersPlacement> {
     let mut row = 0;
-    while !self.is_horizontal_output_double_line(row, 0) {
+    while !self.is_horizontal_output_double_line(row, 0)? {
       row += 1;
     }
     row += 1;
     let mut max_rule_number = 0;
     while row < self.content.len() {
-      if let Cell::Region(_, _, text) = &self.content[row][0] {
+      if let Cell::Region(_, _, text) = self.cell(row, 0)? {
         let text = text.trim();
         if let Ok(rule_number) = usize::from_str(text) {
           if rule_number != max_rule_number + 1 {
@@ -499,9 +506,12 @@ impl Plane {
   }
   /// Checks if rule numbers are placed on the right side after vertical output double line.
   fn recognize_vertical_rule_numbers(&self) -> Result<RuleNumbersPlacement> {
+    if self.content.is_empty() {
+      return Err(plane_is_empty());
+    }
     let mut col = 0;
     let row = self.content.len() - 1;
-    while !self.is_vertical_output_double_line(row, col) {
+    while !self.is_vertical_output_double_line(row, col)? {
       col += 1;
     }
     col += 1;
@@ -531,13 +541,13 @@ impl Plane {
   }
   /// Checks if the cell pointed by coordinates **row** and **col**
   /// is a horizontal output double line.
-  fn is_horizontal_output_double_line(&self, row: usize, col: usize) -> bool {
-    self.content[row][col] == Cell::HorizontalOutputDoubleLine
+  fn is_horizontal_output_double_line(&self, row: usize, col: usize) -> Result<bool> {
+    Ok(*self.cell(row, col)? == Cell::HorizontalOutputDoubleLine)
   }
   /// Checks if the cell pointed by coordinates **row** and **col**
   /// is a vertical output double line.
-  fn is_vertical_output_double_line(&self, row: usize, col: usize) -> bool {
-    self.content[row][col] == Cell::VerticalOutputDoubleLine
+  fn is_vertical_output_double_line(&self, row: usize, col: usize) -> Result<bool> {
+    Ok(*self.cell(row, col)? == Cell::VerticalOutputDoubleLine)
   }
 }
 
